@@ -196,6 +196,26 @@ Proof. exact unmodified_queued_removed_refuted. Qed.
 Theorem C07_unmodified_queued_removed_fixed : rdf_decide_first = true -> C07_unmodified_queued_removed.
 Proof. exact unmodified_queued_removed_two_pass. Qed.
 
+(* With the decisions taken first, C07_orphans_removed holds for outputs of any kind that os.remove can take away
+   (a regular file or a symbolic link made by the step): no guard fires; n is a detached file node that
+   before_delete queues with value v, not an output of an attached optional step, nothing holds it; what is at its
+   path can be unlinked and -- unless volatile -- reads (stat, following links) as exactly the recorded hash.
+   Then after finalize its key is not in the graph and its path is not on disk. *)
+Theorem C07_orphans_removed_any_kind_fixed :
+  forall c g f n v,
+    rdf_decide_first = true ->
+    existsb (guard_fires c) finalize_guards = false ->
+    keys_nodup g -> deps_closed g ->
+    In n (gnodes g) -> nkind n = KFILE -> ndet n = true ->
+    is_revert_target g n = false ->
+    bd_value n = Some v ->
+    (v = None \/ exists h, v = Some h /\ stat f (nlabel n) = SFile h) ->
+    is_unlinkable (fs_get f (nlabel n)) = true ->
+    (~ exists S, self_supporting g S /\ In (nkey n) S) ->
+    let r := finalize c (init_state g f) in
+    ~ In (nkey n) (map nkey (gnodes (s_g r))) /\ fs_get (s_fs r) (nlabel n) = None.
+Proof. exact orphans_removed_any_kind. Qed.
+
 (* Non-vacuity: root -> step s (detached) creates step t creates file o, s has o as amended input
    (a cycle s -> t -> o -> s), plus a detached orphan file x. The cycle survives, x is deleted and
    queued with its recorded hash, its directory is marked. *)
